@@ -89,10 +89,14 @@ class Complete(Sub):
     rule = RULE
 
     def strategy(self, tier):
+        # "slack": per filter None (no limit key) or k >= 0: the filter gets limit = (#stored may-matches) + k, i.e. an
+        # explicit limit that is exactly enough or slightly more - it must truncate nothing
         return st.tuples(st.sampled_from(["kv", "kv", "sql"]),
-                         qgen.st_store_and_filters(max_filters=5, delegation=True, history=True,
-                                                   regular_only=False)).map(
-            lambda t: dict(t[1], backend=t[0]))
+                         E.weighted((9, qgen.st_store_and_filters(max_filters=5, delegation=True, history=True,
+                                                                  regular_only=False)),
+                                    (1, qgen.st_conjunction())),
+                         st.lists(st.sampled_from([None, None, 0, 0, 1, 3]), min_size=5, max_size=5)).map(
+            lambda t: dict(t[1], backend=t[0], slack=t[2]))
 
     def run_case(self, case):
         return H.run(self._run, case)
@@ -108,6 +112,14 @@ class Complete(Sub):
             stored = await rig.dump()
             if not in_domain(filters):
                 return Result([], False, ["out-of-domain"])
+            filters = [dict(f) for f in filters]
+            for i, f in enumerate(filters):
+                k = (case.get("slack") or [None] * 5)[i]
+                if k is not None:
+                    n_may = sum(1 for e in stored.values() if R.may_match(e, f))
+                    if n_may + k <= MAX_LIMIT:
+                        f["limit"] = n_may + k
+                        labels.append("explicit-limit")
             for f in filters:
                 if sum(1 for e in stored.values() if R.may_match(e, f)) > R.effective_limit(f, MAX_LIMIT):
                     return Result([], False, ["over-limit"])
